@@ -75,6 +75,8 @@ def main():
                             got = run(got_rel)
                         except Exception as e:
                             reproduced(f"{op!r} on {tree} with preferred_engine={pref} backtrack={bt} transfer={tr} raised {type(e).__name__}: {e}")
+                        if not tr and got_rel.engine is not tree.engine:
+                            reproduced(f"{op!r} on {tree} with preferred_engine={pref} backtrack={bt} transfer=False left the tree's engine: {got_rel}")
                         if set(got_rel.columns) != want_cols or not D.same_rows(got, want):
                             reproduced(f"{op!r} on {tree} with preferred_engine={pref} backtrack={bt} transfer={tr}: got {got_rel} columns "
                                        f"{sorted(map(str, got_rel.columns))} rows {got}; applying at the root gives columns {sorted(map(str, want_cols))} rows {want}")
